@@ -1,2 +1,173 @@
-(* Independent reference for C14 (filled in below). *)
-From Coq Require Import ZArith List.
+(* Independent reference for C14.
+   1. The number of bytes the body of each descriptor occupies in its standard layout (EN 300 468 6.2 / 6.4,
+      ISO/IEC 13818-1 2.6, Annex D), as plain integers without any fixed-width arithmetic: size_<tag>, desc_size,
+      loop_size.  The length byte a writer must emit is this number; C14_len states when the code does.
+   2. The tag/length/value split of a descriptor loop, as a relation on the raw bytes: tlv_chain (the entries)
+      and tlv_parse (the entries together with what a body parser returns when it is started at the entry's own
+      boundary).  C14_tlv states that parseDescriptors computes exactly this. *)
+From Coq Require Import ZArith List Lia Bool.
+Require Import Base.Bits Base.Iter Gen.Consts Gen.Types.
+Import ListNotations.
+Open Scope Z_scope.
+
+Definition zlen {A} (l : list A) : Z := Z.of_nat (length l).
+Definition sumZ {A} (f : A -> Z) (l : list A) : Z := fold_right (fun x acc => f x + acc) 0 l.
+
+(* ---------------- body sizes ---------------- *)
+
+Definition size_ac3 (v : DescriptorAC3) : Z :=
+  1 + Z.b2z (DescriptorAC3_HasComponentType v) + Z.b2z (DescriptorAC3_HasBSID v) + Z.b2z (DescriptorAC3_HasMainID v)
+    + Z.b2z (DescriptorAC3_HasASVC v) + zlen (DescriptorAC3_AdditionalInfo v).
+Definition size_avc_video (v : DescriptorAVCVideo) : Z := 4.
+Definition size_component (v : DescriptorComponent) : Z := 6 + zlen (DescriptorComponent_Text v).
+Definition size_content (v : DescriptorContent) : Z := 2 * zlen (DescriptorContent_Items v).
+Definition size_data_stream_alignment (v : DescriptorDataStreamAlignment) : Z := 1.
+Definition size_enhanced_ac3 (v : DescriptorEnhancedAC3) : Z :=
+  1 + Z.b2z (DescriptorEnhancedAC3_HasComponentType v) + Z.b2z (DescriptorEnhancedAC3_HasBSID v)
+    + Z.b2z (DescriptorEnhancedAC3_HasMainID v) + Z.b2z (DescriptorEnhancedAC3_HasASVC v)
+    + Z.b2z (DescriptorEnhancedAC3_HasSubStream1 v) + Z.b2z (DescriptorEnhancedAC3_HasSubStream2 v)
+    + Z.b2z (DescriptorEnhancedAC3_HasSubStream3 v) + zlen (DescriptorEnhancedAC3_AdditionalInfo v).
+Definition size_extended_event_item (it : DescriptorExtendedEventItem) : Z :=
+  2 + zlen (DescriptorExtendedEventItem_Description it) + zlen (DescriptorExtendedEventItem_Content it).
+Definition size_extended_event_items (v : DescriptorExtendedEvent) : Z :=
+  sumZ size_extended_event_item (DescriptorExtendedEvent_Items v).
+Definition size_extended_event (v : DescriptorExtendedEvent) : Z :=
+  6 + size_extended_event_items v + zlen (DescriptorExtendedEvent_Text v).
+Definition size_supplementary_audio (v : DescriptorExtensionSupplementaryAudio) : Z :=
+  1 + (if DescriptorExtensionSupplementaryAudio_HasLanguageCode v then 3 else 0)
+    + zlen (DescriptorExtensionSupplementaryAudio_PrivateData v).
+Definition size_extension (v : DescriptorExtension) : Z :=
+  1 + (if DescriptorExtension_Tag v =? C_DescriptorTagExtensionSupplementaryAudio
+       then match DescriptorExtension_SupplementaryAudio v with Some s => size_supplementary_audio s | None => 0 end
+       else match DescriptorExtension_Unknown v with Some bs => zlen bs | None => 0 end).
+Definition size_iso639 (v : DescriptorISO639LanguageAndAudioType) : Z := 4.
+Definition size_local_time_offset (v : DescriptorLocalTimeOffset) : Z := 13 * zlen (DescriptorLocalTimeOffset_Items v).
+Definition size_maximum_bitrate (v : DescriptorMaximumBitrate) : Z := 3.
+Definition size_network_name (v : DescriptorNetworkName) : Z := zlen (DescriptorNetworkName_Name v).
+Definition size_parental_rating (v : DescriptorParentalRating) : Z := 4 * zlen (DescriptorParentalRating_Items v).
+Definition size_private_data_indicator (v : DescriptorPrivateDataIndicator) : Z := 4.
+Definition size_private_data_specifier (v : DescriptorPrivateDataSpecifier) : Z := 4.
+Definition size_registration (v : DescriptorRegistration) : Z := 4 + zlen (DescriptorRegistration_AdditionalIdentificationInfo v).
+Definition size_service (v : DescriptorService) : Z := 3 + zlen (DescriptorService_Provider v) + zlen (DescriptorService_Name v).
+Definition size_short_event (v : DescriptorShortEvent) : Z := 5 + zlen (DescriptorShortEvent_EventName v) + zlen (DescriptorShortEvent_Text v).
+Definition size_stream_identifier (v : DescriptorStreamIdentifier) : Z := 1.
+Definition size_subtitling (v : DescriptorSubtitling) : Z := 8 * zlen (DescriptorSubtitling_Items v).
+Definition size_teletext (v : DescriptorTeletext) : Z := 5 * zlen (DescriptorTeletext_Items v).
+Definition spec_is_vbi_line_service (id : Z) : bool :=
+  (id =? 1) || (id =? 2) || (id =? 4) || (id =? 5) || (id =? 6) || (id =? 7).
+Definition size_vbi_data_service (s : DescriptorVBIDataService) : Z :=
+  2 + (if spec_is_vbi_line_service (DescriptorVBIDataService_DataServiceID s)
+       then zlen (DescriptorVBIDataService_Descriptors s) else 1).
+Definition size_vbi_data (v : DescriptorVBIData) : Z := sumZ size_vbi_data_service (DescriptorVBIData_Services v).
+Definition size_unknown (v : DescriptorUnknown) : Z := zlen (DescriptorUnknown_Content v).
+
+Definition osize {A} (f : A -> Z) (o : option A) : Z := match o with Some v => f v | None => 0 end.
+
+Definition spec_is_user_defined (tag : Z) : bool := (128 <=? tag) && (tag <=? 254).
+
+(* bytes of the body the tag selects (a descriptor without that body is an empty descriptor); tag values from
+   the standards: EN 300 468 table 12, ISO/IEC 13818-1 table 2-45 *)
+Definition desc_size (d : Descriptor) : Z :=
+  let tag := Descriptor_Tag d in
+  if spec_is_user_defined tag then zlen (Descriptor_UserDefined d)
+  else if tag =? 106 then osize size_ac3 (Descriptor_AC3 d)
+  else if tag =? 40 then osize size_avc_video (Descriptor_AVCVideo d)
+  else if tag =? 80 then osize size_component (Descriptor_Component d)
+  else if tag =? 84 then osize size_content (Descriptor_Content d)
+  else if tag =? 6 then osize size_data_stream_alignment (Descriptor_DataStreamAlignment d)
+  else if tag =? 122 then osize size_enhanced_ac3 (Descriptor_EnhancedAC3 d)
+  else if tag =? 78 then osize size_extended_event (Descriptor_ExtendedEvent d)
+  else if tag =? 127 then osize size_extension (Descriptor_Extension d)
+  else if tag =? 10 then osize size_iso639 (Descriptor_ISO639LanguageAndAudioType d)
+  else if tag =? 88 then osize size_local_time_offset (Descriptor_LocalTimeOffset d)
+  else if tag =? 14 then osize size_maximum_bitrate (Descriptor_MaximumBitrate d)
+  else if tag =? 64 then osize size_network_name (Descriptor_NetworkName d)
+  else if tag =? 85 then osize size_parental_rating (Descriptor_ParentalRating d)
+  else if tag =? 15 then osize size_private_data_indicator (Descriptor_PrivateDataIndicator d)
+  else if tag =? 95 then osize size_private_data_specifier (Descriptor_PrivateDataSpecifier d)
+  else if tag =? 5 then osize size_registration (Descriptor_Registration d)
+  else if tag =? 72 then osize size_service (Descriptor_Service d)
+  else if tag =? 77 then osize size_short_event (Descriptor_ShortEvent d)
+  else if tag =? 82 then osize size_stream_identifier (Descriptor_StreamIdentifier d)
+  else if tag =? 89 then osize size_subtitling (Descriptor_Subtitling d)
+  else if tag =? 86 then osize size_teletext (Descriptor_Teletext d)
+  else if tag =? 69 then osize size_vbi_data (Descriptor_VBIData d)
+  else if tag =? 70 then osize size_teletext (Descriptor_VBITeletext d)
+  else osize size_unknown (Descriptor_Unknown d).
+
+(* a loop entry: tag, length byte, body *)
+Definition loop_size (ds : list Descriptor) : Z := sumZ (fun d => 2 + desc_size d) ds.
+
+(* ---------------- the TLV split of a loop ---------------- *)
+
+Definition byte_of (bs : list Z) (pos : Z) : Z := nth (Z.to_nat pos) bs 0.
+
+(* tlv_chain bs endp pos entries fin: starting at pos, entries (position, tag, length) are read while the
+   position is before endp, each entry ending 2 + length bytes after its start; fin is where the walk stops *)
+Inductive tlv_chain (bs : list Z) (endp : Z) : Z -> list (Z * Z * Z) -> Z -> Prop :=
+| tlv_chain_done pos : endp <= pos -> tlv_chain bs endp pos [] pos
+| tlv_chain_step pos es fin :
+    pos < endp -> 0 <= pos -> pos + 2 <= zlen bs ->
+    tlv_chain bs endp (pos + 2 + byte_of bs (pos + 1)) es fin ->
+    tlv_chain bs endp pos ((pos, byte_of bs pos, byte_of bs (pos + 1)) :: es) fin.
+
+(* the same walk, together with the descriptor a body parser yields for each entry when it is run on the
+   untouched buffer at the entry's own body (position + 2) with the entry's own declared end *)
+Inductive tlv_parse (hdr : Z -> Z -> Descriptor) (body : Z -> Z -> Z -> IM Descriptor) (bs : list Z) (endp : Z)
+  : Z -> list Descriptor -> Z -> Prop :=
+| tlv_parse_done pos : endp <= pos -> tlv_parse hdr body bs endp pos [] pos
+| tlv_parse_empty pos ds fin :
+    pos < endp -> 0 <= pos -> pos + 2 <= zlen bs -> byte_of bs (pos + 1) <= 0 ->
+    tlv_parse hdr body bs endp (pos + 2) ds fin ->
+    tlv_parse hdr body bs endp pos (hdr (byte_of bs pos) (byte_of bs (pos + 1)) :: ds) fin
+| tlv_parse_body pos d i' ds fin :
+    pos < endp -> 0 <= pos -> pos + 2 <= zlen bs -> 0 < byte_of bs (pos + 1) ->
+    body (byte_of bs pos) (byte_of bs (pos + 1)) (pos + 2 + byte_of bs (pos + 1)) (mk_iter bs (pos + 2)) = Ok (d, i') ->
+    tlv_parse hdr body bs endp (pos + 2 + byte_of bs (pos + 1)) ds fin ->
+    tlv_parse hdr body bs endp pos (d :: ds) fin.
+
+(* the 12-bit loop length in front of a loop that starts at pos *)
+Definition loop_length_at (bs : list Z) (pos : Z) : Z :=
+  (byte_of bs pos mod 16) * 256 + byte_of bs (pos + 1) mod 256.
+
+(* ---------------- reference byte layouts of descriptor bodies (the byte-aligned ones) ---------------- *)
+(* big-endian words *)
+Definition be16_bytes (x : Z) : list Z := [(x / 256) mod 256; x mod 256].
+Definition be32_bytes (x : Z) : list Z := [(x / 16777216) mod 256; (x / 65536) mod 256; (x / 256) mod 256; x mod 256].
+
+(* EN 300 468 6.2.39 *)
+Definition ref_stream_identifier (v : DescriptorStreamIdentifier) : list Z := [DescriptorStreamIdentifier_ComponentTag v].
+(* ISO/IEC 13818-1 2.6.10 *)
+Definition ref_data_stream_alignment (v : DescriptorDataStreamAlignment) : list Z := [DescriptorDataStreamAlignment_Type v].
+(* 2.6.8: format_identifier(32) additional_identification_info *)
+Definition ref_registration (v : DescriptorRegistration) : list Z :=
+  be32_bytes (DescriptorRegistration_FormatIdentifier v) ++ DescriptorRegistration_AdditionalIdentificationInfo v.
+(* 2.6.28 / EN 300 468 6.2.31 *)
+Definition ref_private_data_indicator (v : DescriptorPrivateDataIndicator) : list Z := be32_bytes (DescriptorPrivateDataIndicator_Indicator v).
+Definition ref_private_data_specifier (v : DescriptorPrivateDataSpecifier) : list Z := be32_bytes (DescriptorPrivateDataSpecifier_Specifier v).
+(* 2.6.18 (one entry): ISO_639_language_code(24) audio_type(8) *)
+Definition ref_iso639 (v : DescriptorISO639LanguageAndAudioType) : list Z :=
+  DescriptorISO639LanguageAndAudioType_Language v ++ [DescriptorISO639LanguageAndAudioType_Type v].
+(* 6.2.27 *)
+Definition ref_network_name (v : DescriptorNetworkName) : list Z := DescriptorNetworkName_Name v.
+(* 6.2.33: service_type, provider name with its length, service name with its length *)
+Definition ref_service (v : DescriptorService) : list Z :=
+  [DescriptorService_Type v; zlen (DescriptorService_Provider v)] ++ DescriptorService_Provider v ++
+  [zlen (DescriptorService_Name v)] ++ DescriptorService_Name v.
+(* 6.2.37: language, event name with its length, text with its length *)
+Definition ref_short_event (v : DescriptorShortEvent) : list Z :=
+  DescriptorShortEvent_Language v ++ [zlen (DescriptorShortEvent_EventName v)] ++ DescriptorShortEvent_EventName v ++
+  [zlen (DescriptorShortEvent_Text v)] ++ DescriptorShortEvent_Text v.
+(* 6.2.28: country_code(24) rating(8) per entry *)
+Definition ref_parental_rating (v : DescriptorParentalRating) : list Z :=
+  flat_map (fun it => DescriptorParentalRatingItem_CountryCode it ++ [DescriptorParentalRatingItem_Rating it]) (DescriptorParentalRating_Items v).
+(* 6.2.41: language(24) subtitling_type(8) composition_page_id(16) ancillary_page_id(16) per entry *)
+Definition ref_subtitling (v : DescriptorSubtitling) : list Z :=
+  flat_map (fun it => DescriptorSubtitlingItem_Language it ++ [DescriptorSubtitlingItem_Type it] ++
+                      be16_bytes (DescriptorSubtitlingItem_CompositionPageID it) ++ be16_bytes (DescriptorSubtitlingItem_AncillaryPageID it))
+           (DescriptorSubtitling_Items v).
+(* 6.2.9: content_nibble_level_1(4) content_nibble_level_2(4) user_byte(8) per entry *)
+Definition ref_content (v : DescriptorContent) : list Z :=
+  flat_map (fun it => [DescriptorContentItem_ContentNibbleLevel1 it * 16 + DescriptorContentItem_ContentNibbleLevel2 it;
+                       DescriptorContentItem_UserByte it]) (DescriptorContent_Items v).
+Definition ref_unknown (v : DescriptorUnknown) : list Z := DescriptorUnknown_Content v.
